@@ -262,12 +262,19 @@ def transferTokensTy : Ty → Ty → Ty → Option Ty
   | p, .mutez, .contract t => if p = t then some .operation else none
   | _, _, _ => none
 
+/-- CHECK_SIGNATURE: `key : signature : bytes : S ⇒ bool : S` -/
+def checkSignatureTy : Ty → Ty → Ty → Option Ty
+  | .key, .signature, .bytes => some .bool
+  | _, _, _ => none
+
 /-- the rules of extension 2 -/
 def stepExt : Instr → List Ty → Option TRes
   | .NEVER, .never :: _ => some .failed      -- `NEVER :: never : A ⇒ B` for every `B`: like FAILWITH, nothing follows
   | .SELF _ t, s => some (.ok (.contract t :: s))      -- `t`: the type of that entrypoint of the contract's parameter
   | .TRANSFER_TOKENS, a :: b :: c :: s => (transferTokensTy a b c).map fun t => .ok (t :: s)
   | .TRANSFER_TOKENS, _ => none
+  | .CHECK_SIGNATURE, a :: b :: c :: s => (checkSignatureTy a b c).map fun t => .ok (t :: s)
+  | .CHECK_SIGNATURE, _ => none
   | i, a :: s => (unTy i a).map fun t => .ok (t :: s)
   | _, [] => none
 
@@ -435,6 +442,7 @@ mutual
     | .atom .chainId _, .chainId => true
     | .atom .keyHash _, .keyHash => true
     | .atom .key _, .key => true
+    | .atom .signature _, .signature => true
     | .contract t' _, .contract t => t' = t
     | .opTransfer _ _ _ _ p pty, .operation => checkVal strictMap p pty
     | .opDelegate _ _, .operation => true
